@@ -1348,10 +1348,31 @@ fn run_rh(c: &Case) -> Obs {
             .filter(|(o, _)| !matches!(o, hist::Op::GetMut | hist::Op::Finish))
             .map(|(_, s)| s)
             .collect();
-        let n = mt_common.len().max(st.len());
+        let mut n = mt_common.len().max(st.len());
+        // files with a block that fails AFTER parse_block has initialised the block (CRC, inflate,
+        // ISIZE mismatch): a seek that runs into it fails in both readers, but the multithreaded
+        // reader still has the block that was current before the seek (its own buffer) while the
+        // single-threaded reader has inflated into its only buffer; what follows a failed seek is
+        // not compared
+        let late = fs.iter().any(|f| matches!(hist::bad_of(&f.method), Some(b) if "cps".contains(&b[..1])));
+        if late {
+            if let Some(j) = st_ops
+                .iter()
+                .zip(&st)
+                .position(|(o, s)| matches!(o, hist::Op::Seek(..) | hist::Op::SeekU(_)) && s.starts_with("Err:"))
+            {
+                // the result of the failing seek itself is compared, the position after it is not
+                if mt_common.get(j).map(|s| s.split('@').next()) == st.get(j).map(|s| s.split('@').next()) {
+                    n = j;
+                }
+            }
+        }
         if let Some(i) = (0..n).find(|&i| mt_common.get(i).copied() != st.get(i)) {
+            // known cause on the single-threaded side: after a late failure the half-initialised
+            // block (new size and length, cursor 0, unverified bytes) stays current
+            let st_err_before = late && st.iter().take(i + 1).any(|s| s.starts_with("Err:InvalidData"));
             return o.with_verdict(Err((
-                "mtr-history-differs-from-st".into(),
+                if st_err_before { "str-failed-block-stays-current-after-inflate-error" } else { "mtr-history-differs-from-st" }.into(),
                 format!(
                     "{ctx} common-op#{i} mt=[{}] st=[{}]",
                     mt_common.get(i).map_or("-", |s| s.as_str()),
@@ -1363,6 +1384,13 @@ fn run_rh(c: &Case) -> Obs {
         // query outside the index -- are results, not failures)
         if let Some(bad) = mt.iter().find(|s| s.contains("Panic")) {
             return o.with_verdict(Err(("mtr-history-panic-on-valid-file".into(), format!("{ctx} {bad}"))));
+        }
+        // a corrupt block or frame the history reads across surfaces as an error from a call
+        if fs.iter().any(|f| hist::bad_of(&f.method).is_some())
+            && st.iter().any(|s| s.starts_with("Err:InvalidData") || s.starts_with("Err:UnexpectedEof"))
+            && !mt.iter().any(|s| s.starts_with("Err:"))
+        {
+            return o.with_verdict(Err(("mtr-history-corrupt-block-no-error".into(), ctx)));
         }
     }
     o
@@ -1483,6 +1511,106 @@ fn gen_segs(rng: &mut Rng) -> String {
         })
         .collect::<Vec<_>>()
         .join(";")
+}
+
+/// a well-formed file with one or two frames broken (see hist::bad_of); `late_known` = every
+/// late failure is a CRC flip (the bytes the failed inflate leaves in the block are the data)
+fn gen_bad_file(rng: &mut Rng) -> (Vec<hist::FSpec>, bool) {
+    let mut fs = gen_hist_file(rng);
+    let mut late_known = true;
+    let nbad = if rng.chance(1, 3) { 2 } else { 1 };
+    for _ in 0..nbad {
+        if rng.chance(1, 4) {
+            // frame-level: the last frame (drop an EOF marker at the end first, half of the time)
+            if fs.len() > 1 && fs.last().is_some_and(|f| f.method == "e") && rng.chance(1, 2) {
+                fs.pop();
+            }
+            let f = fs.last_mut().unwrap();
+            if hist::bad_of(&f.method).is_some() {
+                continue;
+            }
+            let what = if rng.chance(1, 2) {
+                "z".to_string()
+            } else {
+                format!("t{}", rng.range(18, f.csize as u64 - 1))
+            };
+            f.method = format!("{}!{what}", f.method);
+        } else {
+            let j = rng.below(fs.len() as u64) as usize;
+            if hist::bad_of(&fs[j].method).is_some() {
+                continue;
+            }
+            let mut what = *rng.pick(&["c", "c", "p", "s", "m", "i", "c", "m"]);
+            if what == "s" && fs[j].len == 0 {
+                what = "c";
+            }
+            if what == "p" || what == "s" {
+                // must be a corruption the reader detects
+                let data = hist::pattern(fs[j].len, fs[j].a, fs[j].m);
+                let fr = hist::build_frame(&format!("{}!{what}", fs[j].method), &data);
+                let mut r = bgzf::io::Reader::new(Cursor::new(fr));
+                let mut b = [0u8; 1];
+                if r.read(&mut b).is_ok() {
+                    what = "c";
+                }
+            }
+            if what == "p" || what == "s" {
+                late_known = false;
+            }
+            fs[j].method = format!("{}!{what}", fs[j].method);
+        }
+    }
+    for f in fs.iter_mut() {
+        f.csize = hist::build_frame(&f.method, &hist::pattern(f.len, f.a, f.m)).len();
+    }
+    (fs, late_known)
+}
+
+/// op histories over files with corrupt blocks / a broken last frame: rhe (MultithreadedReader vs
+/// NV.Bgzf.MtReaderErr) and rhste (Reader vs the single-threaded model of the same file)
+fn gen_rhe(rng: &mut Rng, w: &mut CaseWriter, n: u64) {
+    for i in 0..n {
+        let p = pool_for(rng, i + 1);
+        let (fs, late_known) = gen_bad_file(rng);
+        if !fs.iter().any(|f| hist::bad_of(&f.method).is_some()) {
+            continue;
+        }
+        let l = hist::assemble(&fs).expect("fresh frames");
+        let mut ops = gen_hist_ops(rng, &l, i % 3 == 1);
+        // keep reading after the error
+        for _ in 0..rng.range(1, 4) {
+            ops.insert(
+                rng.below(ops.len() as u64 + 1) as usize,
+                *rng.pick(&[hist::Op::Read(100), hist::Op::Fill, hist::Op::ReadAll(70000), hist::Op::Read(65536), hist::Op::Exact(5)]),
+            );
+        }
+        if let Some(z) = ops.iter().position(|o| *o == hist::Op::Finish) {
+            ops.truncate(z + 1);
+        }
+        let full = l.full_index();
+        let index = if rng.chance(1, 4) { vec![] } else { full };
+        let policy = [1u64, 2, 3, 4, 1, 0][(i % 6) as usize];
+        w.push(
+            "rhe",
+            vec![
+                p.to_string(),
+                hist::fmt_frames(&fs),
+                hist::fmt_index(&index),
+                hist::fmt_ops(&ops),
+                gen_segs(rng),
+                policy.to_string(),
+                rng.next().to_string(),
+            ],
+        );
+        if late_known && i % 2 == 0 {
+            let st_ops: Vec<hist::Op> = ops
+                .iter()
+                .copied()
+                .filter(|o| !matches!(o, hist::Op::GetMut | hist::Op::Finish))
+                .collect();
+            w.push("rhste", vec![hist::fmt_frames(&fs), hist::fmt_index(&index), hist::fmt_ops(&st_ops)]);
+        }
+    }
 }
 
 fn gen_rh(rng: &mut Rng, w: &mut CaseWriter, n: u64) {
@@ -1793,6 +1921,7 @@ fn generate(rng: &mut Rng, tier: &str, w: &mut CaseWriter) {
     }
     // reader op histories against the model NV.Bgzf.MtReaderOps
     gen_rh(rng, w, 40 * scale);
+    gen_rhe(rng, w, 40 * scale);
     for p in [1u64, 2, 4] {
         w.push("rfd", vec![p.to_string(), rng.next().to_string(), "6".into()]);
     }
@@ -1836,8 +1965,8 @@ fn run(c: &Case) -> Obs {
         "wst" => run_wst(c),
         "r" => run_r(c),
         "rs" => run_rs(c),
-        "rh" => run_rh(c),
-        "rhst" => run_rhst(c),
+        "rh" | "rhe" => run_rh(c),
+        "rhst" | "rhste" => run_rhst(c),
         "rfd" => run_rfd(c),
         "rce" => run_rce(c),
         k => Obs::fail("-", "harness-unknown-kind", k),
@@ -1846,7 +1975,7 @@ fn run(c: &Case) -> Obs {
 
 fn case_pool(c: &Case) -> u64 {
     match c.kind.as_str() {
-        "w" | "r" | "rs" | "rh" | "rfd" | "rce" => c.u(0),
+        "w" | "r" | "rs" | "rh" | "rhe" | "rfd" | "rce" => c.u(0),
         _ => 4,
     }
 }
